@@ -364,6 +364,9 @@ package corerad
 //@   requires P1: advOK(a) && ifiOK(a.cfg) && conn != nil && a.terminate != nil
 //@   assigns new heap(ndp.RouterAdvertisement), new mem(ndp.Option), new heap(ndp.PrefixInformation), new heap(ndp.RouteInformation), new heap(ndp.RecursiveDNSServer), new heap(ndp.DNSSearchList), new heap(ndp.MTU), new heap(ndp.LinkLayerAddress), new mem(netip.Addr), new mem(netip.Prefix), new mem(system.IP), new mem(system.Route), new mem(config.Misconfiguration), ghost.clockRead, ghost.now, ghost.lastAddrs, ghost.lastRoutes, ghost.fwdVal, ghost.fwdName, ghost.fwdFresh, ghost.writes, ghost.lastWriteDst, ghost.lastWriteMsg
 //@   at call terminate() (tr): ghost.term = tr
+//@   ghost local sent Int
+//@   at call send(sa, sc, sdst, scfg) (serr): ghost.sent = ghost.sent + 1
+//@   ensures T0 [C08]: ghost.term ==> ghost.sent == 1
 //@   ensures T1 [C08]: !ghost.term ==> ghost.writes == old(ghost.writes)
 //@   ensures T2 [C08]: ghost.writes <= old(ghost.writes) + 1
 //@   ensures T3 [C08]: ghost.writes == old(ghost.writes) + 1 ==> ghost.term && ghost.lastWriteDst == allNodesAddr && isType(ghost.lastWriteMsg, "*ndp.RouterAdvertisement") && as(ghost.lastWriteMsg, "*ndp.RouterAdvertisement").RouterLifetime == 0 && raHeaderFrom(as(ghost.lastWriteMsg, "*ndp.RouterAdvertisement"), a.cfg)
@@ -906,6 +909,7 @@ package corerad
 //@ func NewAdvertiser
 //@   assigns new heap(corerad.Advertiser), brk
 //@   ensures E1 [C20,C08,C10]: result != nil && fresh(result) && result.cfg == cfg && result.cctx == cctx && result.dialer == dialer && result.terminate == terminate && result.watchC == watchC
+//@   ensures E2 [C06,C07]: result.minDelayBetweenRAs == secs(3)
 //@ func NewMonitor
 //@   assigns new heap(corerad.Monitor), brk
 //@   ensures E1 [C20,C10]: result != nil && fresh(result) && result.iface == iface && result.cctx == cctx && result.dialer == dialer && result.watchC == watchC
